@@ -29,7 +29,7 @@ FAMILIES = ('rename', 'mirror', 'noise', 'respell')
 
 def export_tree(ref='HEAD'):
     d = tempfile.mkdtemp(prefix='ebv_benign.', dir='/tmp')
-    p1 = subprocess.Popen(['git', '-C', '/repo', 'archive', ref, 'src'], stdout=subprocess.PIPE)
+    p1 = subprocess.Popen(['git', '-C', '/repo', 'archive', ref, 'src', 'docs'], stdout=subprocess.PIPE)
     subprocess.check_call(['tar', '-x', '-C', d], stdin=p1.stdout)
     p1.wait()
     os.makedirs(os.path.join(d, '_build'), exist_ok=True)
@@ -73,7 +73,8 @@ def function_entry(fn):
         if v['k'] == 'DeclRefExpr' and v.get('rk') in ('global', 'function', 'enumerator', 'staticmember') and v.get('name'):
             members.add(v['name'])
     names = sorted(n for n in names if n not in members and len(n) > 1 and not n.startswith('__'))
-    return (fn.relfile, fn.line, fn.endline, names, fn.name)
+    bl = fn.nodes.get(fn.body, {}).get('l') if fn.body is not None else None
+    return (fn.relfile, fn.line, fn.endline, names, fn.name + ('@%d' % bl if bl else ''))
 
 
 def apply(tree, funcs, family):
@@ -94,7 +95,7 @@ def apply(tree, funcs, family):
                 for n in names:
                     # not a member access, not part of a longer identifier, not inside a string literal (approximation:
                     # skip occurrences directly surrounded by quotes)
-                    if n == qn.split('::')[-1]:
+                    if n == qn.split('@')[0].split('::')[-1]:
                         continue
                     if re.search(r'(?<![\w.>])%s\s*[*&]?\s+\*?\s*[A-Za-z_]\w*\s*(=|;|,|\))' % re.escape(n), text) or \
                             re.search(r'\b%s\s*[*&]' % re.escape(n), text) and re.search(r'\b%s\s*\*\s*\w+\s*=' % re.escape(n), text):
@@ -108,7 +109,18 @@ def apply(tree, funcs, family):
                                   sw, text)
                 changed += k
             elif family == 'noise':
+                # the brace that opens the body (not one of a member initialiser or default argument)
                 idx = text.find('{')
+                if '@' in qn:
+                    bl = int(qn.rsplit('@', 1)[1])
+                    if a <= bl <= b:
+                        off = sum(len(x) + 1 for x in seg[:bl - a])
+                        j = text.find('{', off)
+                        # a constructor with initialisers: the body brace is the last '{' of its line
+                        ln_end = text.find('\n', off)
+                        ln_end = len(text) if ln_end < 0 else ln_end
+                        j2 = text.rfind('{', off, ln_end)
+                        idx = j2 if j2 >= 0 else j
                 if idx >= 0:
                     text = text[:idx + 1] + ' (void)0; ' + text[idx + 1:]
                     changed += 1
